@@ -75,9 +75,55 @@ def _lower(stmts: list, conv) -> list:
                 out.append(ast.copy_location(ast.If(test=st.test, body=body + _lower(rest, conv) or [ast.copy_location(ast.Pass(), st)], orelse=orelse or [ast.copy_location(ast.Pass(), st)]), st))
                 return out
             raise NotInlinable("return in a branch that does not always return")
+        if isinstance(st, (ast.With, ast.AsyncWith)) and _contains_return(st) and i == len(stmts) - 1:
+            # `with cm: ...; return v` in tail position: the value is produced inside the block
+            new_with = copy.copy(st)
+            new_with.body = _lower(st.body, conv) or [ast.copy_location(ast.Pass(), st)]
+            out.append(new_with)
+            return out
         if _contains_return(st):
             raise NotInlinable("return inside a loop / try / with")
         out.append(st)
+    return out
+
+
+def _loop_level(stmts):
+    """Statements of a loop body that belong to THIS loop (not to nested loops / defs)."""
+    stack = list(stmts)
+    while stack:
+        n = stack.pop()
+        yield n
+        if isinstance(n, (ast.For, ast.AsyncFor, ast.While)):
+            stack.extend(n.orelse)
+            continue
+        if isinstance(n, (ast.FunctionDef, ast.AsyncFunctionDef, ast.ClassDef, ast.Lambda)):
+            continue
+        stack.extend(x for x in ast.iter_child_nodes(n) if isinstance(x, (ast.stmt, ast.ExceptHandler, ast.match_case)))
+
+
+def _replace_yields(stmts: list, loop: ast.For, has_continue: bool, enclosing_loop) -> list:
+    """`yield X` -> `TARGET = X; BODY`,  `yield from X` -> `for TARGET in X: BODY`."""
+    out = []
+    for i, st in enumerate(stmts):
+        if isinstance(st, ast.Expr) and isinstance(st.value, ast.Yield):
+            if has_continue and not (enclosing_loop is not None and i == len(stmts) - 1 and stmts is enclosing_loop.body):
+                raise NotInlinable("continue in the loop body and the yield is not the tail of a loop")
+            val = st.value.value if st.value.value is not None else ast.Constant(value=None)
+            out.append(ast.copy_location(ast.Assign(targets=[copy.deepcopy(loop.target)], value=val, lineno=st.lineno), st))
+            out.extend(copy.deepcopy(loop.body))
+        elif isinstance(st, ast.Expr) and isinstance(st.value, ast.YieldFrom):
+            out.append(ast.copy_location(ast.For(target=copy.deepcopy(loop.target), iter=st.value.value, body=copy.deepcopy(loop.body), orelse=[], lineno=st.lineno), st))
+        elif isinstance(st, (ast.FunctionDef, ast.AsyncFunctionDef, ast.ClassDef)):
+            out.append(st)
+        else:
+            inner_loop = st if isinstance(st, (ast.For, ast.While)) else enclosing_loop
+            for fld in ("body", "orelse", "finalbody"):
+                block = getattr(st, fld, None)
+                if isinstance(block, list) and block and isinstance(block[0], ast.stmt):
+                    setattr(st, fld, _replace_yields(block, loop, has_continue, inner_loop if fld == "body" else enclosing_loop))
+            for h in getattr(st, "handlers", []) or []:
+                h.body = _replace_yields(h.body, loop, has_continue, enclosing_loop)
+            out.append(st)
     return out
 
 
@@ -142,9 +188,48 @@ class Inliner:
                 if isinstance(n, ast.ImportFrom):
                     for al in n.names:
                         pass
+        exported = set()
+        init_mod = self.p.modules.get("__init__")
+        if init_mod is not None:
+            exported = set(init_mod.imports)
+        # reference graph (calls AND value references) for cycle detection
+        by_name: dict = {}
+        for f in funcs:
+            by_name.setdefault(f.name, []).append(f)
+        refs: dict = {}
+        for f in funcs:
+            names = set()
+            for n in ast.walk(f.node):
+                if isinstance(n, ast.Name):
+                    names.add(n.id)
+                elif isinstance(n, ast.Attribute):
+                    names.add(n.attr)
+            refs[f.name] = {x for x in names if x in by_name and x != f.name} | ({f.name} if any(isinstance(n, ast.Call) and ((isinstance(n.func, ast.Name) and n.func.id == f.name) or (isinstance(n.func, ast.Attribute) and n.func.attr == f.name)) for n in ast.walk(f.node)) else set())
+
+        def in_cycle(name: str) -> bool:
+            seen, stack = set(), list(refs.get(name, ()))
+            while stack:
+                x = stack.pop()
+                if x == name:
+                    return True
+                if x in seen:
+                    continue
+                seen.add(x)
+                stack.extend(refs.get(x, ()))
+            return False
+
         out = {}
         for f in funcs:
-            if not f.name.startswith("_") or f.name.startswith("__"):
+            if f.name.startswith("__"):
+                continue
+            if not f.name.startswith("_"):
+                # a module-level function that is not part of the package's public API
+                if f.cls is not None or f.name in exported or f.name in ("main", "run"):
+                    continue
+            # on a reference cycle (a spawned function that calls back into its spawner) only a
+            # pure extraction - exactly one call site - is folded back; anything else would
+            # unroll the recursion into its callers
+            if in_cycle(f.name) and self._call_site_count(f) != 1:
                 continue
             decos = set(f.decorators)
             if decos - {"staticmethod"}:
@@ -174,6 +259,40 @@ class Inliner:
                     continue
             # docstring-only / trivial bodies are not worth it
             out[id(f)] = f
+        return out
+
+    def generator_candidates(self) -> dict:
+        """Private synchronous generator helpers whose yields are plain statements: a
+        `for T in helper(...): BODY` over one of them is the helper's body with BODY in place of
+        each yield."""
+        out = {}
+        exported = set()
+        init_mod = self.p.modules.get("__init__")
+        if init_mod is not None:
+            exported = set(init_mod.imports)
+        for f in self.p.all_functions():
+            if f.parent is not None or f.is_lambda or not f.is_generator or f.is_async or f.nested:
+                continue
+            if f.name.startswith("__") or f.decorators:
+                continue
+            if not f.name.startswith("_") and (f.cls is not None or f.name in exported):
+                continue
+            a = f.node.args
+            if a.vararg or a.kwarg or a.posonlyargs:
+                continue
+            if any(isinstance(n, ast.Call) and ((isinstance(n.func, ast.Name) and n.func.id == f.name) or (isinstance(n.func, ast.Attribute) and n.func.attr == f.name)) for n in walk_own(f.node)):
+                continue
+            ok = True
+            stmt_yields = {id(st.value) for st in walk_own(f.node) if isinstance(st, ast.Expr) and isinstance(st.value, (ast.Yield, ast.YieldFrom))}
+            for n in walk_own(f.node):
+                if isinstance(n, (ast.Yield, ast.YieldFrom)) and id(n) not in stmt_yields:
+                    ok = False
+                elif isinstance(n, (ast.Return, ast.Global, ast.Nonlocal)):
+                    ok = False
+                elif isinstance(n, (ast.Try, ast.With, ast.AsyncWith)) and any(isinstance(x, (ast.Yield, ast.YieldFrom)) for x in ast.walk(n)):
+                    ok = False
+            if ok and 1 <= len(stmt_yields) <= 2:
+                out[id(f)] = f
         return out
 
     def _call_site_count(self, g: FuncInfo) -> int:
@@ -332,7 +451,13 @@ class Inliner:
         ren = _Renamer(rename, subst)
         body = [ren.visit(s) for s in body]
 
-        if mode == "return":
+        if mode == "for":
+            loop = stmt
+            if any(isinstance(x, ast.Break) for x in _loop_level(loop.body)):
+                raise NotInlinable("break in the loop body")
+            has_continue = any(isinstance(x, ast.Continue) for x in _loop_level(loop.body))
+            new = binds + _replace_yields(body, loop, has_continue, None)
+        elif mode == "return":
             new = binds + body
             if not _always_returns(body):
                 new.append(ast.copy_location(ast.Return(value=None), stmt))
@@ -352,13 +477,64 @@ class Inliner:
             new = binds + lowered
         if not new:
             new = [ast.copy_location(ast.Pass(), stmt)]
+        if g.module is not caller.module:
+            self._carry_imports(caller, g, new)
         for s in new:
             ast.fix_missing_locations(s)
             for sub in ast.walk(s):
                 if not hasattr(sub, "_inlined_from"):
                     sub._inlined_from = g.qualname  # type: ignore[attr-defined]
+                    sub._inlined_relpath = g.module.relpath  # type: ignore[attr-defined]
         self.log.append(f"{g.qualname} -> {caller.qualname}:{stmt.lineno}")
         return new
+
+    def _carry_imports(self, caller: FuncInfo, g: FuncInfo, stmts: list) -> None:
+        """A body moved into another module keeps meaning the same globals: names of the
+        helper's module that the caller's module does not bind get an import there."""
+        gm, cm = g.module, caller.module
+        needed = set()
+        for st in stmts:
+            for n in ast.walk(st):
+                if isinstance(n, ast.Name) and isinstance(n.ctx, ast.Load):
+                    needed.add(n.id)
+        for name in sorted(needed):
+            if name in gm.imports:
+                src = gm.imports[name]
+            elif name in gm.functions or name in gm.classes or name in gm.assigns:
+                src = ("pkg", gm.name, name)
+            else:
+                continue
+            if name in cm.imports:
+                have = cm.imports[name]
+                if have == src or (have[0] == "pkg" and src[0] == "pkg" and have[2] == src[2]):
+                    continue
+                raise NotInlinable(f"`{name}` means something else in the caller's module")
+            if name in cm.functions or name in cm.classes or name in cm.assigns:
+                if src == ("pkg", cm.name, name):
+                    continue
+                raise NotInlinable(f"`{name}` means something else in the caller's module")
+            if src[0] == "pkg":
+                imp = ast.ImportFrom(module=src[1], names=[ast.alias(name=src[2], asname=name if name != src[2] else None)], level=1)
+            elif src[0] == "pkgmod":
+                imp = ast.ImportFrom(module=None, names=[ast.alias(name=src[1], asname=name if name != src[1] else None)], level=1)
+            else:
+                dotted_ = src[1]
+                if "." in dotted_:
+                    m_, _, sym = dotted_.rpartition(".")
+                    imp = ast.ImportFrom(module=m_, names=[ast.alias(name=sym, asname=name if name != sym else None)], level=0)
+                else:
+                    imp = ast.Import(names=[ast.alias(name=dotted_, asname=name if name != dotted_ else None)])
+            imp.lineno = imp.end_lineno = 1
+            imp.col_offset = imp.end_col_offset = 0
+            ast.fix_missing_locations(imp)
+            # after the docstring / __future__ imports
+            pos = 0
+            for i, st in enumerate(cm.tree.body):
+                if (isinstance(st, ast.Expr) and isinstance(st.value, ast.Constant) and isinstance(st.value.value, str)) or (isinstance(st, ast.ImportFrom) and st.module == "__future__"):
+                    pos = i + 1
+            cm.tree.body.insert(pos, imp)
+            cm.imports[name] = src
+            self.log.append(f"import {name} carried into {cm.name}")
 
     # ------------------------------------------------------------------ driver
     def run(self, rounds: int = 3) -> bool:
@@ -375,8 +551,10 @@ class Inliner:
             self.a = _A(self.p)
         for _ in range(rounds):
             cands = self.candidates()
-            if not cands:
+            self.gen_cands = self.generator_candidates()
+            if not cands and not self.gen_cands:
                 break
+            cands = {**cands, **self.gen_cands}
             changed = False
             remaining_calls: dict = {k: 0 for k in cands}
             inlined_calls: dict = {k: 0 for k in cands}
@@ -429,10 +607,19 @@ class Inliner:
         return changed
 
     def _try_inline_stmt(self, f: FuncInfo, st, cands):
+        if isinstance(st, ast.For) and not st.orelse and isinstance(st.iter, ast.Call):
+            c = self.a.callee(f, st.iter)
+            gc = getattr(self, "gen_cands", {})
+            if c.kind == "func" and id(c.func) in gc and c.func is not f and not (isinstance(st.iter.func, ast.Attribute) and not _simple(st.iter.func.value)):
+                try:
+                    return self._expand(f, st, st.iter, False, c.func, "for", st.target)
+                except NotInlinable as e:
+                    self.log.append(f"not inlined generator {c.func.qualname} in {f.qualname}: {e}")
+            return None
         mode, target, value = None, None, None
         if isinstance(st, ast.Expr):
             mode, value = "expr", st.value
-        elif isinstance(st, ast.Assign) and len(st.targets) == 1 and isinstance(st.targets[0], (ast.Name,)):
+        elif isinstance(st, ast.Assign) and len(st.targets) == 1 and (isinstance(st.targets[0], ast.Name) or (isinstance(st.targets[0], ast.Attribute) and _simple(st.targets[0].value))):
             mode, target, value = "assign", st.targets[0], st.value
         elif isinstance(st, ast.AnnAssign) and isinstance(st.target, ast.Name) and st.value is not None:
             mode, target, value = "assign", st.target, st.value
